@@ -233,7 +233,63 @@ fn reader_actor(
     ts.actor_finish();
 }
 
+/// The plan without its aborted transactions: by C08 they leave no trace, so it must behave the same.
+fn without_aborted_txns(plan: &Plan) -> Option<Plan> {
+    let mut out = Vec::new();
+    let mut txn_start = 0usize;
+    let mut removed = false;
+    for st in &plan.steps {
+        match st {
+            Step::Abort => {
+                if out.len() > txn_start {
+                    removed = true;
+                }
+                out.truncate(txn_start);
+            }
+            Step::Commit | Step::Restart => {
+                out.push(st.clone());
+                txn_start = out.len();
+            }
+            _ => out.push(st.clone()),
+        }
+    }
+    if !removed {
+        return None;
+    }
+    let mut p = plan.clone();
+    p.steps = out;
+    Some(p)
+}
+
+/// Run the scenario; if another property's invariant broke after an aborted transaction, decide
+/// whether the abort is to blame by re-running the history without its aborted transactions.
 pub fn run(plan: &Plan, workdir: &Path) -> Outcome {
+    let mut out = run_once(plan, workdir);
+    if out.violation.is_none() && !out.observations.is_empty() {
+        let first = out.observations[0].clone();
+        let abort_before = plan.steps.iter().take(first.step.min(plan.steps.len())).any(|s| matches!(s, Step::Abort));
+        if abort_before {
+            if let Some(p2) = without_aborted_txns(plan) {
+                let o2 = run_once(&p2, workdir);
+                let same = o2.violation.is_some() || o2.observations.iter().any(|o| o.kind == first.kind && o.properties == first.properties) || o2.unevaluable.is_some();
+                if !same {
+                    out.violation = Some(Violation {
+                        properties: vec!["C08".into()],
+                        kind: "aborted_txn_changed_later_behaviour".into(),
+                        step: first.step,
+                        detail: format!(
+                            "after an aborted transaction the history violates {:?} ({}: {}), but the same history without its aborted transactions runs clean: the abort left a trace",
+                            first.properties, first.kind, first.detail
+                        ),
+                    });
+                }
+            }
+        }
+    }
+    out
+}
+
+fn run_once(plan: &Plan, workdir: &Path) -> Outcome {
     let n_readers = plan.params.get("readers").copied().unwrap_or(1).clamp(1, 3) as u32;
     let rounds = plan.params.get("rounds").copied().unwrap_or(3);
     let rseed = plan.params.get("reader_seed").copied().unwrap_or(7);
